@@ -90,6 +90,10 @@ pub fn verify_identity(e: &Env, account: &Address) {
     let topics_and_issuers = cti_client.get_claim_topics_and_issuers();
 
     for (claim_topic, issuers) in topics_and_issuers.iter() {
+        // A required topic nobody is trusted to attest can never be satisfied
+        if issuers.is_empty() {
+            panic_with_error!(e, RWAError::IdentityVerificationFailed)
+        }
         let issuers_with_claim_ids = issuers.iter().enumerate().map(|(i, issuer)| {
             (
                 issuer.clone(),
